@@ -45,15 +45,19 @@ impl Deserializer {
                     ==> r is Ok && final(out)@ == old(out)@ + old(self).rem()[0]->Payload_0 && final(self).rem() == old(self).rem().skip(1) { unimplemented!() }
     #[verifier::external_body] pub fn array(&mut self) -> (r: Result<cbor_event::Len, CborError>)
         ensures old(self).rem().len() > 0 && old(self).rem()[0] is Arr ==> r is Ok && r->Ok_0 == cbor_event::Len::Len(old(self).rem()[0]->Arr_0) && final(self).rem() == old(self).rem().skip(1),
-                old(self).rem().len() > 0 && old(self).rem()[0] is ArrIndef ==> r is Ok && r->Ok_0 is Indefinite && final(self).rem() == old(self).rem().skip(1) { unimplemented!() }
+                old(self).rem().len() > 0 && old(self).rem()[0] is ArrIndef ==> r is Ok && r->Ok_0 is Indefinite && final(self).rem() == old(self).rem().skip(1),
+                r is Ok ==> old(self).rem().len() > 0 && (old(self).rem()[0] is Arr || old(self).rem()[0] is ArrIndef) { unimplemented!() }
     #[verifier::external_body] pub fn tag(&mut self) -> (r: Result<u64, CborError>)
         ensures old(self).rem().len() > 0 && old(self).rem()[0] is Tag ==> r is Ok && r->Ok_0 == old(self).rem()[0]->Tag_0 && final(self).rem() == old(self).rem().skip(1),
                 // a typed token that is not a tag: an error, nothing consumed (cbor_event checks the type before it reads)
                 old(self).rem().len() > 0 && typed(old(self).rem()[0]) && !(old(self).rem()[0] is Tag) ==> r is Err && final(self).rem() == old(self).rem() { unimplemented!() }
     #[verifier::external_body] pub fn unsigned_integer(&mut self) -> (r: Result<u64, CborError>)
-        ensures old(self).rem().len() > 0 && old(self).rem()[0] is UInt ==> r is Ok && r->Ok_0 == old(self).rem()[0]->UInt_0 && final(self).rem() == old(self).rem().skip(1) { unimplemented!() }
+        ensures old(self).rem().len() > 0 && old(self).rem()[0] is UInt ==> r is Ok && r->Ok_0 == old(self).rem()[0]->UInt_0 && final(self).rem() == old(self).rem().skip(1),
+                r is Ok ==> old(self).rem().len() > 0 && old(self).rem()[0] is UInt     // cbor_event rejects any other type
+    { unimplemented!() }
     #[verifier::external_body] pub fn special(&mut self) -> (r: Result<CBORSpecial, CborError>)
-        ensures old(self).rem().len() > 0 && old(self).rem()[0] is Special ==> r is Ok && r->Ok_0 == old(self).rem()[0]->Special_0 && final(self).rem() == old(self).rem().skip(1) { unimplemented!() }
+        ensures old(self).rem().len() > 0 && old(self).rem()[0] is Special ==> r is Ok && r->Ok_0 == old(self).rem()[0]->Special_0 && final(self).rem() == old(self).rem().skip(1),
+                r is Ok ==> old(self).rem().len() > 0 && old(self).rem()[0] is Special { unimplemented!() }
 }
 // the library's error type: only Ok/Err-ness matters; conversions as in error.rs
 pub enum Key { Str(String), Uint(u64) }
@@ -70,3 +74,41 @@ impl From<CborError> for DeserializeError { #[verifier::external_body] fn from(e
 impl From<DeserializeFailure> for DeserializeError { #[verifier::external_body] fn from(e: DeserializeFailure) -> (r: DeserializeError) { unimplemented!() } }
 impl vstd::std_specs::convert::FromSpecImpl<CborError> for DeserializeError { open spec fn obeys_from_spec() -> bool { false } uninterp spec fn from_spec(e: CborError) -> DeserializeError; }
 impl vstd::std_specs::convert::FromSpecImpl<DeserializeFailure> for DeserializeError { open spec fn obeys_from_spec() -> bool { false } uninterp spec fn from_spec(e: DeserializeFailure) -> DeserializeError; }
+
+// ---- decoders as functions on the token stream ------------------------------------------------------------------------------------
+/// `Deserialize`: `dec(rem)` = (value, number of tokens consumed) for token streams the decoder is GUARANTEED to accept at their head
+/// (completeness direction only: what else it may accept is not said, so these contracts carry "decode . encode = id", not strictness)
+pub trait De: Sized {
+    spec fn dec(rem: Seq<Tok>) -> Option<(Self, int)>;
+    fn deserialize(raw: &mut Deserializer) -> (r: Result<Self, DeserializeError>)
+        ensures Self::dec(old(raw).rem()) is Some ==> r is Ok && r->Ok_0 == Self::dec(old(raw).rem())->Some_0.0
+                    && 0 <= Self::dec(old(raw).rem())->Some_0.1 <= old(raw).rem().len()
+                    && final(raw).rem() == old(raw).rem().skip(Self::dec(old(raw).rem())->Some_0.1);
+}
+/// `x / null` fields: traits.rs `impl<T: Deserialize> DeserializeNullable for T`
+pub open spec fn dec_nullable<T: De>(rem: Seq<Tok>) -> Option<(Option<T>, int)> {
+    if rem.len() > 0 && rem[0] == Tok::Special(CBORSpecial::Null) { Some((None, 1)) }
+    else if rem.len() > 0 && typed(rem[0]) && !(rem[0] is Special) { match T::dec(rem) { Some((x, n)) => Some((Some(x), n)), None => None } }
+    else { None }
+}
+pub trait DeserializeNullable: De {
+    fn deserialize_nullable(raw: &mut Deserializer) -> (r: Result<Option<Self>, DeserializeError>)
+        ensures dec_nullable::<Self>(old(raw).rem()) is Some ==> r is Ok && r->Ok_0 == dec_nullable::<Self>(old(raw).rem())->Some_0.0
+                    && 0 <= dec_nullable::<Self>(old(raw).rem())->Some_0.1 <= old(raw).rem().len()
+                    && final(raw).rem() == old(raw).rem().skip(dec_nullable::<Self>(old(raw).rem())->Some_0.1);
+}
+/// encoder and decoder of a type are inverse on the token stream, whatever follows (C01 for that type)
+pub trait RoundTrip: Ser + De {
+    proof fn lemma_rt(x: Self, rest: Seq<Tok>)
+        ensures Self::dec(x.enc() + rest) == Some((x, x.enc().len() as int));
+}
+/// a type whose own decoder is not under contract in this unit: `dec` uninterpreted, round trip ASSUMED (listed per type)
+macro_rules! de_opaque { ($($n:ident),* $(,)?) => { verus!{ $(
+    impl De for $n {
+        uninterp spec fn dec(rem: Seq<Tok>) -> Option<(Self, int)>;
+        #[verifier::external_body] fn deserialize(raw: &mut Deserializer) -> (r: Result<Self, DeserializeError>) { unimplemented!() }
+    }
+    impl RoundTrip for $n {
+        #[verifier::external_body] proof fn lemma_rt(x: Self, rest: Seq<Tok>) { }
+    }
+)* } } }
